@@ -812,6 +812,11 @@ def g_query(verifier, vc, K=4, L=3, drop=(), pool=False):
     body = '\n'.join(body) + '\n'
     from . import prelude
     extra = '\n'.join(l for l in verifier.extra_prelude.split('\n') if 'forall' not in l)
+    # in the finite scope "canonical uuid text" means: one of the real uuid texts of the pool (uninterpreted, the
+    # solver would use arbitrary texts - e.g. a sibling's name 'a' - as canonical form of an id argument)
+    pool36 = ' '.join('(= s "%s")' % x for x in G_POOL if len(x) == 36)
+    extra = extra.replace('(declare-fun canon_uuid (String) Bool)',
+                          '(define-fun canon_uuid ((s String)) Bool (or %s))' % pool36)
     from .engine import EXTRA_DECLS
     q = prelude.HEADER_Z3 + prelude.minimal_prelude(body, EXTRA_DECLS + extra) + body
     return q, labels
